@@ -166,12 +166,16 @@ type hdrSpec struct {
 	AppHash  []byte
 	CommitDH int64 // commit height - header height (0 = consistent)
 	BadBlock bool  // commit.BlockID.Hash != header hash (votes sign the commit's block id)
+	Memo     bool  // keep the encoded header for re-use (part B revisits the same headers on many paths)
 }
 
 func (h hdrSpec) String() string {
 	s := fmt.Sprintf("h=%d v%d vals=%s next=%s sigs=%s", h.Height, h.Ver, h.Vals.id, h.Next.id, h.Sigs)
 	if h.HdrVals != h.Vals {
 		s += " hdrvals=" + h.HdrVals.id
+	}
+	if h.ChainID != tmChainID {
+		s += " chainid=" + h.ChainID
 	}
 	if h.CommitDH != 0 {
 		s += fmt.Sprintf(" commitdh=%d", h.CommitDH)
@@ -324,7 +328,7 @@ func build33(h hdrSpec, signChainID string) (tm33.Header, *tm33.Commit, []*tm33.
 // rawCosmos / rawOkex: amino encodings as the relayer submits them. Second result: the header hash.
 func rawCosmos(h hdrSpec) ([]byte, []byte) {
 	key := "cosmos|" + h.String() + "|" + string(h.AppHash)
-	if v, ok := rawMemo.Load(key); ok {
+	if v, ok := rawMemo.Load(key); ok && h.Memo {
 		p := v.([2][]byte)
 		return p[0], p[1]
 	}
@@ -333,15 +337,29 @@ func rawCosmos(h hdrSpec) ([]byte, []byte) {
 	if err != nil {
 		panic(err)
 	}
-	rawMemo.Store(key, [2][]byte{raw, hh})
+	if h.Memo {
+		rawMemo.Store(key, [2][]byte{raw, hh})
+	}
 	return raw, hh
 }
 
 var okexCdc = okex.NewCDC()
 
+// rawOkexEthKey: a fully signed okex header whose first validator entry carries an ethermint eth_secp256k1 public key
+// (the only key type the okex codec adds). tendermint's own codec (used by ValidatorSet.Hash) does not know the type.
+func rawOkexEthKey(h hdrSpec) []byte {
+	hdr, commit, vals, _ := build33(h, h.ChainID)
+	vals[0] = &tm33.Validator{Address: vals[0].Address, PubKey: tmKeyOf("eth", 1).pub, VotingPower: vals[0].VotingPower}
+	raw, err := okexCdc.MarshalBinaryBare(okex.CosmosHeader{Header: hdr, Commit: commit, Valsets: vals})
+	if err != nil {
+		panic(err)
+	}
+	return raw
+}
+
 func rawOkex(h hdrSpec) ([]byte, []byte) {
 	key := "okex|" + h.String() + "|" + string(h.AppHash)
-	if v, ok := rawMemo.Load(key); ok {
+	if v, ok := rawMemo.Load(key); ok && h.Memo {
 		p := v.([2][]byte)
 		return p[0], p[1]
 	}
@@ -350,6 +368,8 @@ func rawOkex(h hdrSpec) ([]byte, []byte) {
 	if err != nil {
 		panic(err)
 	}
-	rawMemo.Store(key, [2][]byte{raw, hh})
+	if h.Memo {
+		rawMemo.Store(key, [2][]byte{raw, hh})
+	}
 	return raw, hh
 }
